@@ -276,7 +276,7 @@ _WR = ['self.whitespace', 'self.indention', 'self.column', 'self.line', 'self.op
 _DSE = "as_(self.event, 'obj:yaml.events.DocumentStartEvent')"
 _DIRECTIVES = "(%s.version is not None or (%s.tags is not None and len(%s.tags) > 0))" % (_DSE, _DSE, _DSE)
 _CM0 = "(typeis(self.event, 'obj:yaml.events.DocumentStartEvent') and old(self.open_ended) and %s)" % _DIRECTIVES
-_MARKER_FIRST = "(has_chunk(LOG(self), old(len(LOG(self))), ENC(self, '...')) or has_chunk(LOG(self), old(len(LOG(self))), ENC(self, ' ...')))"
+_MARKER_FIRST = ("(len(LOG(self)) > old(len(LOG(self))) and (LOG(self)[old(len(LOG(self)))] == ENC(self, '...') or LOG(self)[old(len(LOG(self)))] == ENC(self, ' ...')))")
 _CM = "%s ==> %s" % (_CM0, _MARKER_FIRST)
 contract(E + 'expect_document_start', props=['C12', 'C15', 'C11', 'C05'], max_paths=8,
     params={'first': 'bool'},
@@ -291,13 +291,12 @@ contract(E + 'expect_document_start', props=['C12', 'C15', 'C11', 'C05'], max_pa
     ],
     labels={0: 'inv_pos', 1: 'accepts-only-document-start-or-stream-end', 2: 'next-is-the-root-node', 3: 'stream-end-is-final',
             4: 'tag-prefixes-rebuilt-per-document'},
-    axioms=[_has_chunk_lemmas],
     # C12/C05: a document left open-ended (plain root scalar, keep-chomped block scalar) is closed with '...' BEFORE any %YAML / %TAG
     # line of the next document and before the end of the stream -- otherwise the directive would be read as content of the scalar.
     # Stated as lemmas at the program point in front of the directives (cut 1) and in front of the stream end (cut 2); cut 0: the
-    # marker is the last chunk right after it is written
+    # marker is the first chunk this call writes (stated over the log itself: no uninterpreted occurrence predicate is involved)
     cuts=[("self.write_indicator('...', True)", [_MARKER_FIRST]),
-          ("if (self.event.version or self.event.tags) and self.open_ended:", [_CM]),
+          (r"re:^if .*\bself\.open_ended:$", [_CM]),      # both `if`s that test open_ended (the clause is vacuous at the other one)
           ("if self.open_ended:", ["(typeis(self.event, 'obj:yaml.events.StreamEndEvent') and old(self.open_ended)) ==> %s" % _MARKER_FIRST])],
     invariants={0: ["inv_pos(self)", "fresh(self.tag_prefixes) and haskey(self.tag_prefixes, '!') and haskey(self.tag_prefixes, 'tag:yaml.org,2002:')",
                     "doc_ok(self.event)", "typeis(self.event, 'obj:yaml.events.DocumentStartEvent')", "self.state is old(self.state)",
